@@ -131,6 +131,20 @@ FAULT_CONC = [
 ]
 
 
+def faultconc_problems(runner, ob):
+    probs = [(s_, d) for s_, d in ob.removal_findings if s_ == "object-removed-while-referenced"]
+    # final state: every pid that is bound (pid reference + its line in the cid list) reaches its object
+    a = ob.final
+    for pid, cid in a.pid_refs.items():
+        if pid.startswith("?"):
+            continue
+        lines = a.cid_lines(cid) or []
+        if pid in lines and cid not in a.objects:
+            probs.append(("bound-pid-lost-its-object", {"pid": pid, "cid": cid, "outcomes": [list(x) for x in ob.okeys]}))
+            break
+    return probs
+
+
 def run_faultconc(idx, tier, sub_seed):
     import errno
     from .. import concengine as C
@@ -148,8 +162,8 @@ def run_faultconc(idx, tier, sub_seed):
         lay = runner.layout
         # quick: the full one-preemption sweep for the publishing steps (renames) only; thorough: for every fault site
         focus = (lambda desc: str(desc).startswith("rename:")) if tier == "quick" else None
-        for ob, _hyg, wk, k in C.explore_with_faults(runner, rng, 1, 4 if tier == "quick" else 10,
-                                                     rng.choice([errno.EIO, errno.ENOSPC, errno.EACCES]),
+        code = rng.choice([errno.EIO, errno.ENOSPC, errno.EACCES])
+        for ob, _hyg, wk, k in C.explore_with_faults(runner, rng, 1, 4 if tier == "quick" else 10, code,
                                                      dfs_cap=160 if tier == "quick" else 150, site_filter=focus, persistent=True):
             if ob.deadlock or ob.hang or ob.harness_errors:
                 res.foreign["did-not-complete"] = res.foreign.get("did-not-complete", 0) + 1
@@ -160,24 +174,11 @@ def run_faultconc(idx, tier, sub_seed):
             site = (ob.fault_fired or "").split(":")[0] + ":" + "/".join((ob.fault_fired or "::").split(":")[2].split("/")[:2])
             base = {"calls": sorted(op_shape(o) for o in scn.calls), "start": sname, "faulted_call": op_shape(scn.calls[wk]),
                     "fault_site": site}
-            for symptom, detail in ob.removal_findings:
-                if symptom == "object-removed-while-referenced":
-                    wit = C.witness(runner, ob, symptom, detail)
-                    wit.update(fault={"worker": wk, "site": k, "operation": ob.fault_fired})
-                    res.violation(dict(base, symptom=symptom), wit)
-            # final state: every pid that is bound (pid reference + its line in the cid list) reaches its object
-            a = ob.final
-            for pid, cid in a.pid_refs.items():
-                if pid.startswith("?"):
-                    continue
-                lines = a.cid_lines(cid) or []
-                if pid in lines and cid not in a.objects:
-                    detail = {"pid": pid, "cid": cid, "outcomes": [list(x) for x in ob.okeys]}
-                    wit = C.witness(runner, ob, "bound-pid-lost-its-object", detail)
-                    wit.update(fault={"worker": wk, "site": k, "operation": ob.fault_fired})
-                    res.violation(dict(base, symptom="bound-pid-lost-its-object"), wit)
-                    break
-            res.count("bound_pids_checked_after_faulted_schedules", len(a.pid_refs))
+            for symptom, detail in faultconc_problems(runner, ob):
+                wit = C.witness(runner, ob, symptom, detail)
+                wit.update(fault={"worker": wk, "site": k, "operation": ob.fault_fired, "errno": code, "persistent": True})
+                res.violation(dict(base, symptom=symptom), wit)
+            res.count("bound_pids_checked_after_faulted_schedules", len(ob.final.pid_refs))
         res.sample({"scenario": scn.name, "schedules": res.evaluations})
     except Inconclusive as inc:
         res.inconclusive.append(f"{scn.name}: {inc}")
@@ -371,6 +372,9 @@ def run_shard(mode, payload, tier, sub_seed):
 
 
 def replay(witness):
+    if witness.get("engine") == "conc" and witness.get("fault"):
+        from .. import concprops as P
+        return P.replay_fault_witness(witness, faultconc_problems)
     if witness.get("engine") == "conc":
         from .. import concprops as P
         return P.replay_witness(witness, {"object-removed-while-referenced"})
